@@ -227,3 +227,89 @@ fn lazy_check<const NI: usize, const N: usize, const NP: u8>() {
 harness!(c14_lazy_sink, 9, { lazy_check::<2, 2, 1>(); });
 //@ heavy=1 tier=thorough
 harness!(c14_lazy_sink_3, 12, { lazy_check::<3, 3, 2>(); });
+
+// ---------------------------------------------------------------------------------- send_stream / LazySource
+use crate::script::{Src, T_END, T_PEND, T_READY};
+use dfir_pipes::pull::{Pull, PullStep};
+use sinktools::lazy::LazySource;
+use dfir_pipes::Stream;
+
+/// scripted `futures::Stream` over the `Src` script
+struct SStr<const N: usize>(Src<N>, u8);
+impl<const N: usize> Stream for SStr<N> {
+    type Item = u8;
+    fn poll_next(self: Pin<&mut Self>, _cx: &mut Context<'_>) -> Poll<Option<u8>> {
+        let this = self.get_mut();
+        this.1 = this.1.saturating_add(1);
+        match Pin::new(&mut this.0).pull(&mut ()) {
+            PullStep::Ready(x, ()) => Poll::Ready(Some(x)),
+            PullStep::Pending(_) => Poll::Pending,
+            PullStep::Ended(_) => Poll::Ready(None),
+        }
+    }
+}
+harness!(c14_send_stream, 12, {
+    let s = Src::<3>::sym();
+    let want = s.reference();
+    let mut d = SSnk::<u8, 2>::sym();
+    {
+        let fut = sinktools::send_stream(SStr(s, 0), &mut d);
+        let r = poll_n(pin!(fut).as_mut(), 3 + 2 + 2 + 2);
+        assert!(matches!(r, Some(Ok(()))), "C14 send_stream did not complete");
+    }
+    d.check(&want);
+    assert!(d.flushed_after_last_send, "C14 send_stream completed without flushing the sink");
+    cov!(d.ready_pendings_seen >= 1 && want.len >= 2, "sink pending and two items");
+});
+
+/// init future of a lazy source: `pend` pendings, then the scripted stream
+struct InitSrc<const N: usize> {
+    pend: u8,
+    stream: Option<SStr<N>>,
+}
+impl<const N: usize> Future for InitSrc<N> {
+    type Output = Result<SStr<N>, Infallible>;
+    fn poll(self: Pin<&mut Self>, _cx: &mut Context<'_>) -> Poll<Self::Output> {
+        let this = self.get_mut();
+        if this.pend > 0 {
+            this.pend -= 1;
+            Poll::Pending
+        } else {
+            Poll::Ready(Ok(this.stream.take().expect("C14 lazy source init future polled after completion")))
+        }
+    }
+}
+harness!(c14_lazy_source, 12, {
+    let s = Src::<3>::sym();
+    let want = s.reference();
+    let pend: u8 = any();
+    assume(pend <= 2);
+    let created = Cell::new(0u8);
+    let lazy = LazySource::new(|| {
+        created.set(created.get() + 1);
+        InitSrc::<3> { pend, stream: Some(SStr(s, 0)) }
+    });
+    let mut lazy = pin!(lazy);
+    let mut cx = Context::from_waker(Waker::noop());
+    let mut got = 0usize;
+    let mut ended = false;
+    let mut k = 0;
+    while k < 3 + 2 + 2 {
+        match lazy.as_mut().poll_next(&mut cx) {
+            Poll::Ready(Some(x)) => {
+                assert!(got < want.len && x == want.get(got), "C14 lazy source: item differs from the inner stream's (value or order)");
+                got += 1;
+            }
+            Poll::Ready(None) => {
+                assert!(got == want.len, "C14 lazy source ended before the inner stream's items were delivered");
+                ended = true;
+                break;
+            }
+            Poll::Pending => {}
+        }
+        k += 1;
+    }
+    assert!(ended, "C14 lazy source did not end");
+    assert!(created.get() == 1, "C14 lazy source initialised more (or less) than once");
+    cov!(pend == 2 && got >= 2, "two init pendings then two items");
+});
